@@ -304,6 +304,17 @@ func (s *Sim) Exec(t []string) string {
 			return "err"
 		}
 		return "ok"
+	case "reorgto": // reorgto <block id>: the exported BlockChain.ReorganizeChain on an indexed block
+		blk := s.N.ByID(t[1])
+		if blk == nil {
+			panic("harness: reorgto: unknown block " + t[1])
+		}
+		res := "ok"
+		if err := s.N.Chain.ReorganizeChain(blk); err != nil {
+			s.LastErr = err.Error()
+			res = "err"
+		}
+		return res + " " + s.TipLine()
 	case "appr": // appr <0|1> <amount>: the committee's "appropriation needed" flag and amount (set directly, as
 		// the CR election that computes them is outside the modelled era)
 		c := s.N.Chain.GetCRCommittee()
